@@ -304,11 +304,16 @@ type c11Scenario struct {
 	Fails   int           `json:"failed_redials"`
 	Backoff c11Backoff    `json:"backoff"`
 	Cold    bool          `json:"cold_start"` // active only: the FIRST dials fail (Open background), no prior generation
+	// SECS-I scenarios (c11_s1.go): Transport == "secs1", S1 is the peer's behaviour on the failing line,
+	// S1Equip the library's E4 role (equipment = master). Beh is then only a label for statistics / the model.
+	Transport string    `json:"transport,omitempty"`
+	S1        lifeS1Beh `json:"s1,omitempty"`
+	S1Equip   bool      `json:"s1_equipment,omitempty"`
 }
 
 func (s c11Scenario) key() string {
-	return fmt.Sprintf("e2e|%s|%s|%s|%s|%d|%d|%v|%d|%v|%v", s.Role, s.Beh.Kind, s.Beh.Cut.Exchange, s.Beh.Cut.Dir, s.Beh.Cut.Off, s.Fails,
-		s.Backoff.Initial, math.Float64bits(s.Backoff.Mult), s.Backoff.T5, s.Cold)
+	return fmt.Sprintf("e2e|%s|%s|%s|%s|%d|%d|%v|%d|%v|%v|%s|%s|%d|%v", s.Role, s.Beh.Kind, s.Beh.Cut.Exchange, s.Beh.Cut.Dir, s.Beh.Cut.Off, s.Fails,
+		s.Backoff.Initial, math.Float64bits(s.Backoff.Mult), s.Backoff.T5, s.Cold, s.Transport, s.S1.Kind, s.S1.Off, s.S1Equip)
 }
 
 var c11Backoffs = []c11Backoff{
@@ -332,6 +337,9 @@ const (
 
 // detectBound is how long the library may legitimately take to notice the failure.
 func (s c11Scenario) detectBound() time.Duration {
+	if s.Transport == "secs1" {
+		return c11S1T2 + c11S1T1 // a dead line is noticed at the next read; allow one protocol timeout
+	}
 	switch s.Beh.Kind {
 	case "stallSelect":
 		return c11T6
@@ -845,7 +853,10 @@ func c11Judge(c *Ctx, o c11Outcome, slack time.Duration) {
 }
 
 func runC11EndToEnd(c *Ctx) {
-	scs := c11Scenarios(c)
+	scs := append(c11Scenarios(c), c11S1Scenarios(c)...)
+	for i := range scs {
+		scs[i].ID = i
+	}
 	slack := 1500 * time.Millisecond
 	if c.Thorough() {
 		slack = 2500 * time.Millisecond
@@ -866,7 +877,11 @@ func runC11EndToEnd(c *Ctx) {
 					outs[i].failNote = fmt.Sprint("panic: ", p)
 				}
 			}()
-			outs[i] = c11RunScenario(scs[i], slack)
+			if scs[i].Transport == "secs1" {
+				outs[i] = c11RunS1Scenario(scs[i], slack)
+			} else {
+				outs[i] = c11RunScenario(scs[i], slack)
+			}
 		}(i)
 	}
 	wg.Wait()
